@@ -69,8 +69,7 @@ def cases(draw, tier):
             # digests that begin or end in zero bytes (1 in 256 by chance)
             "grind_custom": draw(st.sampled_from([None, None, None, "ends-00", "starts-00",
                                                   "ends-0000"])),
-            "grind_auth": draw(st.sampled_from([None, None, None, "ends-00", "starts-00"])),
-            "b64_wrap": draw(st.sampled_from([0, 0, 64, 76]))}
+            "grind_auth": draw(st.sampled_from([None, None, None, "ends-00", "starts-00"]))}
     # the digest is in the (correctly signed) report data, but not at its beginning
     sh = draw(st.sampled_from([None] * 8 + [["q", 1, "zero"], ["q", 32, "other"], ["q", 16, "zero"],
                                             ["a", 1, "zero"], ["a", 32, "other"]]))
@@ -327,15 +326,6 @@ def apply(c):
     if c["spec"].get("rd_shift_a"):
         broken.add("attestation")
         labels.append("binding-shifted:attestation")
-    wrap = c["spec"].get("b64_wrap")
-    if wrap:
-        # certificates kept as the lines of the PEM they came in (what the gathering command
-        # writes when the device's chain is wrapped at 64 or 76 characters)
-        for e in doc["elements"]:
-            if e.get("type") == "x509_pem" and isinstance(e.get("message"), str):
-                m = e["message"]
-                e["message"] = "\n".join(m[i:i + wrap] for i in range(0, len(m), wrap))
-        labels.append("b64-wrapped")
     return doc, root_map, broken, labels, v
 
 
@@ -495,6 +485,6 @@ def stages(tier):
     from vlib.runner import EnumStage
     return [EnumStage("time-passes", time_passes_cases, run_time_passes,
                       exhaustive={"quick": True, "thorough": True},
-                      budget_s={"quick": 60, "thorough": 60}),
+                      budget_s={"quick": 180, "thorough": 60}),
             HypStage("chains", lambda t: cases(t), run_case, {"quick": 200, "thorough": 4000},
-                     budget_s={"quick": 100, "thorough": 1200})]
+                     budget_s={"quick": 300, "thorough": 1200})]
